@@ -47,19 +47,45 @@ NOT_CARRIED = [
     "rel 1e-6.  It was false for the pinned code because of the 1e-3 m segment cut-off of stokes_integration (former "
     "finding similarity_cutoff of C05, FIXED in /repo by cfd1b2b); a failure of a pair with a segment extent below "
     "3 mm would still be reported under that key",
-    "the Nusselt branch (adjacent patches) under any map: nusselt_integration is not modelled",
+    "the Nusselt branch (adjacent patches): nusselt_integration is modelled (Model/Nusselt.v) and proved invariant under "
+    "TRANSLATIONS (C05_universal_full_translation, used by C17_room_translate); under axis permutations it is "
+    "genuinely not invariant (regular sample grid spanned by the first and the last edge of the vertex list) -- the "
+    "equality of the Nusselt-branch form-factor entries of the image room is an explicit HYPOTHESIS of "
+    "C17_room_axis_permutation_partial, the property only claims the 0.5 % bound there",
     "_point_in_polygon under rotations: it rotates the polygon to the horizontal plane and shoots a +x ray there; "
     "C17_kernels_visibility_partial is conditional on equal point-in-polygon answers in both poses (known finding "
-    "ray_through_vertex shows they can differ on a thin set)",
-    "equivariance of the tiling under the 48 maps is now PROVED wall by wall (C17_tiling_axis_permutation = "
+    "ray_through_vertex shows they can differ on a thin set).  Under TRANSLATIONS _point_in_polygon, _project_to_plane, "
+    "_basic_visibility and both visibility scans are PROVED invariant (inside C17_room_translate).  For axis "
+    "permutations the patch-to-patch visibility matrix and the source visibility vector of the image room being the "
+    "renumbered ones are HYPOTHESES of C17_room_axis_permutation_partial / C17_room_initial_energy_axis_permutation "
+    "(in closed form they are theorems for shoebox rooms only, C07_shoebox_visibility / C07_shoebox_point_visibility, "
+    "and the image of the stub room is not literally a stub room)",
+    "equivariance of the tiling under the 48 maps is PROVED wall by wall (C17_tiling_axis_permutation = "
     "C08_axis_permutation, both engines; explicit index map: C08_axis_permutation_index; translation: C08_translate): "
     "for a wall in a coordinate plane with both in-plane extents >= the patch size, the patch list of the image wall is "
     "a permutation of the images of the wall's patches, the four vertices of every patch reordered by one fixed order.  "
     "It is an identity of exact ordered-field arithmetic: in float64 the mirrored cell edges -(x_max) + k*s and "
-    "-(x_min + (n-k)*s) agree only up to rounding, and the theorem is per wall (the wall blocks of _process_patches keep "
-    "their order: C08_wall_block).  Still NOT proved: that the baked kernel data of the placed scene are the "
-    "sigma-transported data (hypotheses of C17_relabel_scene) -- established per scene by the harness (patch centres, "
-    "areas, form factors, visibility matched through sigma)",
+    "-(x_min + (n-k)*s) agree only up to rounding",
+    "that the baked kernel data of the placed scene are the sigma-transported data (hypotheses of C17_relabel_scene) is "
+    "now DERIVED for the composed room model (Model/Full.v) as far as it is true: for TRANSLATIONS of the room "
+    "description completely -- C17_room_translate: the output curve of room_mono is the identical list, no hypothesis; "
+    "for the 48 SIGNED AXIS PERMUTATIONS of a room whose walls are in the C08 domain there is a patch renumbering pi "
+    "(bijection, wall preserving, patch pi k = image of patch k with re-ordered vertices) with: centres, areas, wall "
+    "ids, patch normals, every delay bin (C17_room_geometry_axis_permutation); source / receiver shares in both modes "
+    "and, where the source visibility agrees, initial energies (C17_room_initial_energy_axis_permutation); the touching "
+    "test and the Stokes entries of the form-factor matrix with any cut-off, using the new invariance of the Stokes "
+    "kernel under independent re-orderings of the two vertex lists (C17_room_stokes_axis_permutation); the pair list "
+    "and all baked transfer factors, hence the patch histograms (C17_room_axis_permutation_partial) and the identical "
+    "output curve of room_mono for the rotated room, source and receiver (C17_room_rotation_curve_partial).  Still "
+    "HYPOTHESES there: visibility data transported, visible pairs on different walls, Nusselt-branch entries "
+    "transported (see above).  The harness still establishes these per scene (patch centres, areas, form factors, "
+    "visibility matched through sigma)",
+    "mirrorings and the wall frames: the frame of the BRDF direction sets is built with a cross product, so under the "
+    "24 signed axis permutations of determinant -1 the direction set of the image wall is the image of the direction "
+    "set with the tangential y axis flipped (C17_room_frames_axis_permutation proves exactly that formula); incoming / "
+    "outgoing sample indices are proved equal for the 24 rotations only, and C17_room_axis_permutation_partial is "
+    "stated for rotations.  (The harness uses direction-dependent BRDFs for translations and normal/up scalings only: "
+    "a mirror image of a direction-dependent BRDF is a different material.)",
 ]
 
 
